@@ -22,10 +22,11 @@ four value lists only; this file follows the source function by function and obs
 * `loop`                = the `while start_index <= max_option_string_index` loop (positionals, `continue`,
                           extras up to the next option, `consume_optional`) and the code after it (trailing
                           positionals, remaining strings -> extras);
-* `takeAction`          = `take_action` / `_get_values` / `_AppendAction`, `_StoreAction`.
+* `takeAction`          = `take_action` / `_get_values` / `_AppendAction`, `_StoreAction`, CBI's `_UndefineAction`
+                          (`Argparse.Cfg.apply`; its `TypeError` on a non-string list element leaves the parser as it is).
 
 Observable result: the four value lists, `namespace.file`, the `extras` list, or the class of the abort
-(`ArgumentError` raised because `exit_on_error=False`, `SystemExit` from `parser.error()`).
+(`ArgumentError` raised because `exit_on_error=False`, `SystemExit` from `parser.error()`, `TypeError` from `_UndefineAction`).
 Core Lean only (linked into the native driver). -/
 namespace CbiVerif.ArgparseFull
 open CbiVerif.Argparse CbiVerif.Gen
@@ -85,10 +86,10 @@ def matchArgument (n : NArgs) (pat : List Tok) : Except PErr Nat :=
   | .opt, _ => .ok 0
 
 /-- `take_action`: `_get_values` (one string, the first `--` removed) and the action -/
-def takeAction (k : Kind) (args : List Arg) (c : Cfg) : Cfg :=
+def takeAction (k : Kind) (args : List Arg) (c : Cfg) : Except PErr Cfg :=
   match k, args with
-  | .value d, [s] => c.add d (toVal s)
-  | _, _ => c
+  | .value a, [s] => c.apply a (toVal s)
+  | _, _ => .ok c
 
 /-- `consume_optional(start_index)`; `rest` = the pattern / strings after `start_index` -/
 def consumeOptional (st : St) (a : Arg) (c : Cls) (rest : List Tok) : Except PErr (St × List Tok) :=
@@ -96,14 +97,20 @@ def consumeOptional (st : St) (a : Arg) (c : Cls) (rest : List Tok) : Except PEr
   | .opt o (some e) =>
     match nargsOf o.kind with
     | none => .error .unsupported
-    | some _ => .ok ({ st with cfg := takeAction o.kind [e] st.cfg }, rest)
+    | some _ =>
+      match takeAction o.kind [e] st.cfg with
+      | .error err => .error err
+      | .ok cfg => .ok ({ st with cfg := cfg }, rest)
   | .opt o none =>
     match nargsOf o.kind with
     | none => .error .unsupported
     | some n =>
       match matchArgument n rest with
       | .error e => .error e
-      | .ok k => .ok ({ st with cfg := takeAction o.kind ((rest.take k).map Tok.str) st.cfg }, rest.drop k)
+      | .ok k =>
+        match takeAction o.kind ((rest.take k).map Tok.str) st.cfg with
+        | .error err => .error err
+        | .ok cfg => .ok ({ st with cfg := cfg }, rest.drop k)
   | _ => .ok ({ st with extras := st.extras ++ [a] }, rest)
 
 /-- the longest prefix matching `[A-]*` -/
